@@ -20,24 +20,27 @@ fn configs(thorough: bool) -> Vec<(&'static str, Cfg)> {
     let b = |drops, dups, crashes, views, catchups, timeouts| Budget { drops, dups, crashes, views, catchups, timeouts };
     let mut v = vec![
         // fault-free reorderings with catch-up, two and three writes
-        ("3 nodes, 2 single-event writes, reordering + catch-up", Cfg { n: 3, tx_lens: vec![1, 1], max: b(0, 0, 0, 0, 1, 0), buffer_limit: 1000, submit_at: vec![], catchup_appends_anywhere: false }),
-        ("3 nodes, 2 writes (2+1 events), 1 view change, catch-up", Cfg { n: 3, tx_lens: vec![2, 1], max: b(0, 0, 0, 1, 1, 0), buffer_limit: 1000, submit_at: vec![], catchup_appends_anywhere: false }),
+        ("3 nodes, 2 single-event writes, reordering + catch-up", Cfg { n: 3, tx_lens: vec![1, 1], max: b(0, 0, 0, 0, 1, 0), buffer_limit: 1000, submit_at: vec![], submit_plan: vec![], view_change_only: None, eager: vec![], catchup_mode: model::CatchupMode::CoordinatorSequence }),
+        ("3 nodes, 2 writes (2+1 events), 1 view change, catch-up", Cfg { n: 3, tx_lens: vec![2, 1], max: b(0, 0, 0, 1, 1, 0), buffer_limit: 1000, submit_at: vec![], submit_plan: vec![], view_change_only: None, eager: vec![], catchup_mode: model::CatchupMode::CoordinatorSequence }),
         if thorough {
-            ("3 nodes, 3 single-event writes, 1 view change, catch-up", Cfg { n: 3, tx_lens: vec![1, 1, 1], max: b(0, 0, 0, 1, 1, 0), buffer_limit: 1000, submit_at: vec![], catchup_appends_anywhere: false })
+            ("3 nodes, 3 single-event writes, 1 view change, catch-up", Cfg { n: 3, tx_lens: vec![1, 1, 1], max: b(0, 0, 0, 1, 1, 0), buffer_limit: 1000, submit_at: vec![], submit_plan: vec![], view_change_only: None, eager: vec![], catchup_mode: model::CatchupMode::CoordinatorSequence })
         } else {
-            ("3 nodes, 3 single-event writes submitted at node 0 or 1, 1 view change, catch-up", Cfg { n: 3, tx_lens: vec![1, 1, 1], max: b(0, 0, 0, 1, 1, 0), buffer_limit: 1000, submit_at: vec![0, 1], catchup_appends_anywhere: false })
+            ("3 nodes, 3 single-event writes submitted at node 0 or 1, 1 view change, catch-up", Cfg { n: 3, tx_lens: vec![1, 1, 1], max: b(0, 0, 0, 1, 1, 0), buffer_limit: 1000, submit_at: vec![0, 1], submit_plan: vec![], view_change_only: None, eager: vec![], catchup_mode: model::CatchupMode::CoordinatorSequence })
         },
-        ("3 nodes, 2 writes, 1 drop, 1 duplicate, 1 timeout", Cfg { n: 3, tx_lens: vec![1, 1], max: b(1, 1, 0, 0, 1, 1), buffer_limit: 1000, submit_at: vec![], catchup_appends_anywhere: false }),
-        ("3 nodes, 2 writes, 1 crash/restart, 1 view change", Cfg { n: 3, tx_lens: vec![1, 1], max: b(0, 0, 1, 1, 1, 0), buffer_limit: 1000, submit_at: vec![], catchup_appends_anywhere: false }),
-        ("2 nodes, 2 writes, 1 view change, 1 timeout", Cfg { n: 2, tx_lens: vec![1, 2], max: b(0, 0, 0, 1, 1, 1), buffer_limit: 1000, submit_at: vec![], catchup_appends_anywhere: false }),
+        ("3 nodes, 2 writes, 1 drop, 1 duplicate, 1 timeout", Cfg { n: 3, tx_lens: vec![1, 1], max: b(1, 1, 0, 0, 1, 1), buffer_limit: 1000, submit_at: vec![], submit_plan: vec![], view_change_only: None, eager: vec![], catchup_mode: model::CatchupMode::CoordinatorSequence }),
+        ("3 nodes, 2 writes, 1 crash/restart, 1 view change", Cfg { n: 3, tx_lens: vec![1, 1], max: b(0, 0, 1, 1, 1, 0), buffer_limit: 1000, submit_at: vec![], submit_plan: vec![], view_change_only: None, eager: vec![], catchup_mode: model::CatchupMode::CoordinatorSequence }),
+        ("2 nodes, 2 writes, 1 view change, 1 timeout", Cfg { n: 2, tx_lens: vec![1, 2], max: b(0, 0, 0, 1, 1, 1), buffer_limit: 1000, submit_at: vec![], submit_plan: vec![], view_change_only: None, eager: vec![], catchup_mode: model::CatchupMode::CoordinatorSequence }),
     ];
     // the largest configuration last, so that it can use the rest of the budget
     let big = v.remove(2);
     v.push(big);
     if thorough {
-        v.push(("3 nodes, 3 writes (1,2,1), 2 view changes, 1 crash, catch-up", Cfg { n: 3, tx_lens: vec![1, 2, 1], max: b(0, 0, 1, 2, 1, 0), buffer_limit: 1000, submit_at: vec![], catchup_appends_anywhere: false }));
-        v.push(("3 nodes, 3 writes, 1 drop, 1 duplicate, 1 view change, 1 timeout, catch-up", Cfg { n: 3, tx_lens: vec![1, 1, 1], max: b(1, 1, 0, 1, 1, 1), buffer_limit: 1000, submit_at: vec![], catchup_appends_anywhere: false }));
-        v.push(("3 nodes, 3 writes, buffer of 1, 1 view change, 2 catch-ups", Cfg { n: 3, tx_lens: vec![1, 1, 1], max: b(0, 0, 0, 1, 2, 0), buffer_limit: 1, submit_at: vec![], catchup_appends_anywhere: false }));
+        v.push(("3 nodes, 3 writes (1,2,1), 2 view changes, 1 crash, catch-up", Cfg { n: 3, tx_lens: vec![1, 2, 1], max: b(0, 0, 1, 2, 1, 0), buffer_limit: 1000, submit_at: vec![], submit_plan: vec![], view_change_only: None, eager: vec![], catchup_mode: model::CatchupMode::CoordinatorSequence }));
+        v.push(("3 nodes, 3 writes, 1 drop, 1 duplicate, 1 view change, 1 timeout, catch-up", Cfg { n: 3, tx_lens: vec![1, 1, 1], max: b(1, 1, 0, 1, 1, 1), buffer_limit: 1000, submit_at: vec![], submit_plan: vec![], view_change_only: None, eager: vec![], catchup_mode: model::CatchupMode::CoordinatorSequence }));
+        v.push(("3 nodes, writes T0 T1 T2 at node 0 and T3 at node 1, node 1 may lose sight of node 0, 1 catch-up", Cfg { n: 3, tx_lens: vec![1, 1, 1, 1], max: b(0, 0, 0, 1, 1, 0), buffer_limit: 1000, submit_at: vec![], submit_plan: vec![0, 0, 0, 1], view_change_only: Some((1, 0)), eager: vec![], catchup_mode: model::CatchupMode::CoordinatorSequence }));
+        // five replicas (quorum 3): three writes coordinated by node 0, a fourth by node 1 from a divergent view
+        v.push(("5 nodes (3 and 4 never lag), writes T0 T1 T2 at node 0 and T3 at node 1, node 1 may lose sight of node 0, 1 catch-up", Cfg { n: 5, tx_lens: vec![1, 1, 1, 1], max: b(0, 0, 0, 1, 1, 0), buffer_limit: 1000, submit_at: vec![], submit_plan: vec![0, 0, 0, 1], view_change_only: Some((1, 0)), eager: vec![3, 4], catchup_mode: model::CatchupMode::CoordinatorSequence }));
+        v.push(("3 nodes, 3 writes, buffer of 1, 1 view change, 2 catch-ups", Cfg { n: 3, tx_lens: vec![1, 1, 1], max: b(0, 0, 0, 1, 2, 0), buffer_limit: 1, submit_at: vec![], submit_plan: vec![], view_change_only: None, eager: vec![], catchup_mode: model::CatchupMode::CoordinatorSequence }));
     }
     v
 }
@@ -138,8 +141,11 @@ fn main() {
     }
     let cap_total = Duration::from_secs(if thorough { 1200 } else { 40 });
     // model parameters that are measured on the real code rather than transcribed
-    let catchup_anywhere = conform::probe_catchup_appends_anywhere();
-    let cfgs: Vec<(&'static str, Cfg)> = configs(thorough).into_iter().map(|(n, mut c)| { c.catchup_appends_anywhere = catchup_anywhere; (n, c) }).collect();
+    let catchup_mode = conform::probe_catchup_mode();
+    let cfgs: Vec<(&'static str, Cfg)> = configs(thorough).into_iter().map(|(n, mut c)| { c.catchup_mode = catchup_mode; (n, c) }).collect();
+    // debugging aid: VERIF_PROTOX_ONLY=<substring> restricts the run to matching configurations (the evidence then says so)
+    let only = std::env::var("VERIF_PROTOX_ONLY").ok();
+    let cfgs: Vec<(&'static str, Cfg)> = cfgs.into_iter().filter(|(n, _)| only.as_ref().map(|o| n.contains(o.as_str())).unwrap_or(true)).collect();
     let t_start = Instant::now();
     let projections: Arc<Mutex<BTreeMap<conform::Projection, (S, &'static str)>>> = Default::default();
     let mut rows = Vec::new();
@@ -178,7 +184,7 @@ fn main() {
     }
     // conformance: replay the per-node projections of the explored traces (and of every counterexample)
     // against the real replica-side actors
-    let mut projs: Vec<(conform::Projection, conform::Witness)> = projections.lock().unwrap().iter().map(|(p, (last, cfgname))| (p.clone(), conform::Witness { cfg: cfg_by_name(cfgname, thorough), last: last.clone() })).collect();
+    let mut projs: Vec<(conform::Projection, conform::Witness)> = projections.lock().unwrap().iter().map(|(p, (last, cfgname))| (p.clone(), conform::Witness { cfg: cfg_by_name(cfgname, thorough), cfg_name: cfgname.to_string(), last: last.clone() })).collect();
     projs.sort_by_key(|(p, _)| (p.events.len(), p.clone()));
     let max_traces = if thorough { 4000 } else { 400 };
     let conf = conform::run(&ctx, &prop, &projs, max_traces);
@@ -206,7 +212,8 @@ fn main() {
         "exhaustive": exhaustive,
         "configurations": rows,
         "determinism": determinism_checked,
-        "model_parameters_measured_on_the_code": {"catch_up_response_appends_wherever_the_log_ends": catchup_anywhere},
+        "restricted_to_configurations_matching": only,
+        "model_parameters_measured_on_the_code": {"where_a_catch_up_response_appends_a_commit": catchup_mode},
         "conformance": {
             "distinct_per_node_projections_collected": projs.len(),
             "replayed_against_real_replicator": conf.replayed,
@@ -229,7 +236,7 @@ fn main() {
 
 fn cfg_by_name(name: &str, thorough: bool) -> Cfg {
     let mut c = configs(true).into_iter().chain(configs(thorough)).chain(configs(false)).find(|(n, _)| *n == name).map(|(_, c)| c).unwrap_or_else(|| vcommon::machinery_fail("unknown configuration"));
-    c.catchup_appends_anywhere = conform::probe_catchup_appends_anywhere();
+    c.catchup_mode = conform::probe_catchup_mode();
     c
 }
 
@@ -261,6 +268,19 @@ fn classify(acts: &[Act]) -> String {
 }
 
 fn replay(ctx: &Ctx, prop: &str, case: &Value) {
+    if case.get("projection").is_some() {
+        let pr: conform::Projection = serde_json::from_value(case["projection"].clone()).unwrap_or_else(|e| vcommon::machinery_fail(&format!("replay: projection does not parse: {e}")));
+        // the ack lemma needs no witness; a deviation does
+        let witness = match (case["witness_configuration"].as_str(), serde_json::from_value::<S>(case["witness_state"].clone())) {
+            (Some(n), Ok(last)) => Some(conform::Witness { cfg: cfg_by_name(n, true), cfg_name: n.to_string(), last }),
+            _ => {
+                let cfg = Cfg { n: 3, tx_lens: pr.tx_lens.clone(), max: Budget::default(), buffer_limit: pr.buffer_limit, submit_at: vec![], submit_plan: vec![], view_change_only: None, eager: vec![], catchup_mode: conform::probe_catchup_mode() };
+                let last = Proto(cfg.clone()).init_states().remove(0);
+                Some(conform::Witness { cfg, cfg_name: "none".into(), last })
+            }
+        };
+        return conform::replay_projection(ctx, prop, pr, witness);
+    }
     let name = case["configuration"].as_str().unwrap_or("");
     let cfg = cfg_by_name(name, true);
     let acts: Vec<Act> = case["actions"].as_array().map(|a| a.iter().filter_map(|v| serde_json::from_value(v.clone()).ok()).collect()).unwrap_or_default();
